@@ -5,7 +5,7 @@ import absint
 import common_val as cv
 import valtables as vt
 import vf
-from absint import MutList, OPAQUE, Unknown
+from absint import Interp, MutList, OPAQUE, Return, Unknown
 
 META = {
     "level": "other",
@@ -29,33 +29,69 @@ MOD = "src/validator/mod.rs"
 
 def r_kinds(ctx):
     rid = "C14.kinds"
-    ctx.rule(rid, "in each non-wasm validate_*_from_* entry point the map_err on the schema parse, the map_err on the document "
-                  "parse/decode and the validation result use pairwise different variants of the route's error enum", floor=3)
+    ctx.rule(rid, "each non-wasm validate_json_from_str / validate_cbor_from_slice entry point returns, for a schema that does not parse, for a "
+                  "document that does not parse / decode and for a validation failure, errors of three pairwise different variants of the "
+                  "route's error enum (and the schema-parse variant is CDDLParsing), and Ok only when all three steps succeed (abstract "
+                  "evaluation with the parser, the document decoder and the validator scripted)", floor=3)
     f = ctx.facts
-    for name, docfn in (("validate_json_from_str", "from_str"), ("validate_cbor_from_slice", "decode_cbor")):
+    for name, docfns, vnew in (("validate_json_from_str", ("from_str", "from_slice"), "JSONValidator::new"), ("validate_cbor_from_slice", ("decode_cbor",), "CBORValidator::new")):
         for fi in f.fn_all(MOD, name):
             if 'target_arch="wasm32"' in fi.cfg:
                 continue
             cfgk = ",".join(c for c in fi.cfg if "additional" in c) or "any"
-            schema_v = doc_v = None
-            for n in vf.walk(fi.node):
-                if n["k"] == "mcall" and n["m"] == "map_err" and n["a"]:
-                    inner = vf.src(n["r"])
-                    var = None
-                    for x in vf.walk(n["a"][0]):
-                        if x["k"] == "path" and "Error::" in x["p"]:
-                            var = x["p"].split("::")[-1]
-                    if "cddl_from_str" in inner:
-                        schema_v = var
-                    elif docfn in inner:
-                        doc_v = var
+            off = ("lsp", "_build-parser") + (("additional-controls",) if "not(" in cfgk else ())
+            cfg = lambda c, off=off: absint.eval_cfg(c, lambda ft: ft not in off)
+            params = [inp["pat"]["n"] for inp in fi.node["sig"]["inputs"] if "pat" in inp and inp["pat"]["k"] == "pid"]
+            kinds = {}
+            for step in ("schema", "document", "validation", "none"):
+                def on_call(kind, nm, node, args, recv, step=step):
+                    if kind == "fn" and nm:
+                        b = nm.split("::")[-1]
+                        if b == "cddl_from_str":
+                            return ("Err", ("str", "schema error")) if step == "schema" else ("Ok", ("str", "AST"))
+                        if b in docfns and ("serde_json" in nm or b == "decode_cbor"):
+                            return ("Err", ("enum", "DecodeErr", {})) if step == "document" else ("Ok", ("str", "DOC"))
+                        if nm.endswith(vnew):
+                            return ("enum", "Validator", {"args": list(args)})
+                        if "Error::" in nm:
+                            return ("enum", nm, list(args))
+                        if nm.endswith("Semantic"):
+                            return ("enum", nm, list(args))
+                    if kind == "method":
+                        if nm == "validate" and isinstance(recv, tuple) and recv[:2] == ("enum", "Validator"):
+                            return ("Err", ("enum", "Error::Validation", [OPAQUE])) if step == "validation" else ("Ok", ("tuple", []))
+                        if nm == "to_string":
+                            return ("str", "text")
+                    return NotImplemented
+                it = Interp(env={p: ("arg", i) for i, p in enumerate(params)}, cfg=cfg, on_call=on_call)
+                try:
+                    try:
+                        res = it.block(fi.node["body"])
+                    except Return as r:
+                        res = r.v
+                except Unknown as e:
+                    ctx.incomplete_msg(rid, "%s[%s] %s failing: %s" % (name, cfgk, step, e))
+                    kinds = None
+                    break
+                if isinstance(res, tuple) and res[0] == "Err" and isinstance(res[1], tuple) and res[1][:1] == ("enum",):
+                    kinds[step] = res[1][1].split("::")[-1]
+                elif isinstance(res, tuple) and res[0] == "Ok":
+                    kinds[step] = "Ok"
+                else:
+                    kinds[step] = repr(res)[:40]
+            if kinds is None:
+                continue
             key = "%s[%s]" % (name, cfgk)
-            ctx.site(rid, key, MOD, fi.line, {"schema_error": schema_v, "document_error": doc_v, "validation_error": "Validation"})
-            if schema_v != "CDDLParsing":
-                ctx.violation(rid, key + "|schema", MOD, fi.line, "%s reports a malformed schema as %s" % (name, schema_v))
-            if doc_v is None or doc_v in (schema_v, "Validation"):
-                ctx.violation(rid, key + "|document", MOD, fi.line, "%s reports a malformed document as Error::%s — the same kind as a malformed "
-                              "schema: callers cannot tell the two failures apart" % (name, doc_v))
+            ctx.site(rid, key, MOD, fi.line, kinds)
+            if kinds["none"] != "Ok":
+                ctx.violation(rid, key + "|success", MOD, fi.line, "%s returns %s when every step succeeds" % (name, kinds["none"]))
+            if kinds["schema"] != "CDDLParsing":
+                ctx.violation(rid, key + "|schema", MOD, fi.line, "%s reports a malformed schema as %s" % (name, kinds["schema"]))
+            if kinds["document"] in (kinds["schema"], kinds["validation"], "Ok"):
+                ctx.violation(rid, key + "|document", MOD, fi.line, "%s reports a malformed document as %s — the same kind as %s: callers cannot tell "
+                              "the failures apart" % (name, kinds["document"], "a malformed schema" if kinds["document"] == kinds["schema"] else "a validation failure"))
+            if kinds["validation"] in (kinds["schema"], "Ok"):
+                ctx.violation(rid, key + "|validation", MOD, fi.line, "%s reports a validation failure as %s" % (name, kinds["validation"]))
 
 
 def self_with_errors(which, docv, pre):
